@@ -201,12 +201,16 @@ def replay_session(pattern, sizes, names):
                     os.mkdir(p)
                     expect.append((names[i], None))
                 elif k == "l":
+                    open(os.path.join(d, "target%d" % i), "wb").write(b"t")   # (py7zr refuses dangling links)
                     os.symlink("target%d" % i, p)
                     expect.append((names[i], b"target%d" % i))
                 else:
                     open(p, "wb").write(data)
                     expect.append((names[i], data))
-                z.write(p, names[i])
+                try:
+                    z.write(p, names[i])
+                except Exception as e:  # noqa
+                    return True, "write() of member %d (%s) of a valid session raised %r" % (i, k, e)
         z.close()
         raw = buf.getvalue()
         ofs, size, crc = struct.unpack("<QQL", raw[12:32])
@@ -245,7 +249,7 @@ def units(tier):
     M = "vf.props.c07"
     us = [Unit("L0." + u.name, u.module, u.func, u.kwargs, u.timeout) for u in c17.units("quick")
           if u.name[0] in "abc" or u.name.startswith("d.utf16[len=2]") or u.name.startswith("e.")]
-    pats = ["", "s", "d", "ss", "sd", "ds", "fl", "sds", "dsd", "lsf"]
+    pats = ["", "s", "d", "ss", "sd", "ds", "fl", "sds", "dsd", "lsf", "sl"]
     if tier == "thorough":
         pats += ["ssss", "sdsd", "dlfs", "ddd", "sfdls"]
     for p in pats:
